@@ -1,0 +1,10 @@
+//go:build verif
+
+// Verification hook (build tag `verif`): exposes splitHostPort. Nothing here exists in a normal build.
+
+package config
+
+// VerifSplitHostPort calls splitHostPort.
+func VerifSplitHostPort(hostport string) (ip, zone, port string, err error) {
+	return splitHostPort(hostport)
+}
